@@ -5,6 +5,7 @@ import (
 	"fmt"
 	"os"
 	"path/filepath"
+	"regexp"
 	"strings"
 	"sync"
 	"time"
@@ -141,7 +142,7 @@ func (w *wlock) Drive(s *simrt.Sched, out *RunResult) {
 			if acquired[p.Name] {
 				role = "by-former-holder"
 			}
-			where := "@" + simos.TraceSite + "/" + role
+			where := "@" + stableRemoveSite(simos.TraceSite) + "/" + role
 			switch {
 			case owner != "" && owner != p.Name && !byName[owner].Dead():
 				badRemovals = append(badRemovals, "removed-lock-of-live-holder"+where)
@@ -262,3 +263,30 @@ func readFileStr(p string) string {
 	}
 	return string(b)
 }
+
+// stableRemoveSite names a removal site of the locker by its ordinal among the os.Remove calls
+// of workspace_locker.go (in source order) instead of by its line, so that edits that only
+// shift lines do not change the identity of a known finding. Falls back to file:line.
+var removeSiteOrdinals map[string]string
+
+func stableRemoveSite(site string) string {
+	if removeSiteOrdinals == nil {
+		removeSiteOrdinals = map[string]string{}
+		src, err := os.ReadFile(filepath.Join(os.Getenv("SIM_SCRATCH"), "grog", "internal", "locking", "workspace_locker.go"))
+		if err == nil {
+			n := 0
+			for _, m := range reRemoveSite.FindAllStringSubmatch(string(src), -1) {
+				if _, dup := removeSiteOrdinals[m[1]]; !dup {
+					n++
+					removeSiteOrdinals[m[1]] = fmt.Sprintf("locking/workspace_locker.go:remove#%d", n)
+				}
+			}
+		}
+	}
+	if s, ok := removeSiteOrdinals[site]; ok {
+		return s
+	}
+	return site
+}
+
+var reRemoveSite = regexp.MustCompile(`simos\.Remove\([^\n]*?"(locking/workspace_locker\.go:\d+)"\)`)
